@@ -42,10 +42,11 @@ def _strategy(draw):
     g = draw(gen.grids(min_T=2, max_T=12))
     nn = draw(st.integers(1, 3))
     nodes = ["n%d" % i for i in range(nn)]
-    variant = draw(st.sampled_from(["plain", "plain", "plain", "blocks", "blocks", "mip", "mip", "coarse", "periodic"]))
-    if variant in ("coarse", "periodic") and not tl.uniform(g):
+    variant = draw(st.sampled_from(["plain", "plain", "plain", "blocks", "blocks", "mip", "mip", "coarse", "periodic", "coarse_mip"]))
+    if variant in ("coarse", "periodic", "coarse_mip") and not tl.uniform(g):
         variant = "plain"
-    prices = {"p0": draw(gen.price_series(g["T"], positive=(variant != "mip"))),
+    neg = variant in ("mip", "coarse_mip")     # negative prices only where simultaneous charge / discharge is excluded by option
+    prices = {"p0": draw(gen.price_series(g["T"], positive=not neg)),
               "p1": draw(gen.price_series(g["T"]))}
     cx = gen.Cx(g, nodes, prices)
     assets = []
@@ -59,13 +60,18 @@ def _strategy(draw):
             a.update(no_simult=True, eff_in=1.0, cost_in=0.0, cost_out=0.0)
             if nn >= 2:
                 a["nodes"] = list(draw(st.permutations(nodes))[:2])
-        if variant in ("coarse", "periodic"):
+        if variant == "coarse_mip":
+            # no-simultaneous option on a storage with an own coarser frequency (boolean variables per coarse step)
+            a.update(no_simult=True, eff_in=draw(st.sampled_from([0.5, 0.75, 1.0])))
+            if draw(st.booleans()):
+                a["cap_in"] = a["cap_out"] * 2.0
+        if variant in ("coarse", "periodic", "coarse_mip"):
             # the storage's own coarser frequency / periodicity: several grid steps per variable.  Only what the
             # statement says about the physical and the reported level is examined here (the formulation is C13's)
             a["start"] = a["end"] = None
             a["cost_store"] = 0.0
             a["nodes"] = a["nodes"][:1]
-            if variant == "coarse":
+            if variant in ("coarse", "coarse_mip"):
                 gen.coarsen(draw, cx, a)
             else:
                 gen.periodize(draw, cx, a)
@@ -90,9 +96,12 @@ def _strategy(draw):
     mk = gen.markets(cx, cap_q=16.0)
     spread = draw(st.sampled_from([0.0, 0.5, 1.0]))
     for i, n in enumerate(nodes):
-        base = draw(gen.price_series(g["T"], positive=(variant != "mip")))
+        base = draw(gen.price_series(g["T"], positive=not neg))
+        if variant == "coarse_mip":
+            # mostly negative prices: burning energy in the charging loss pays, which the option has to prevent
+            base = draw(st.lists(gen.dyadic(-4, 2), min_size=g["T"], max_size=g["T"]))
         cx.prices["pm_hi%d" % i] = [v + spread for v in base]
-        cx.prices["pm_lo%d" % i] = [v if variant == "mip" else max(0.0, v) for v in base]
+        cx.prices["pm_lo%d" % i] = [v if neg else max(0.0, v) for v in base]
         mk[2 * i]["price"] = "pm_hi%d" % i
         mk[2 * i + 1]["price"] = "pm_lo%d" % i
     assets += mk
